@@ -290,10 +290,14 @@ func (s *Service) housekeepAttestedMap(_ context.Context,
 	duty *attester.Duty,
 ) {
 	// Housekeep attested map.
+	// Only the marks of this epoch and the previous one are needed; drop all older ones rather than just
+	// those of two epochs ago, as an epoch without a successful attestation carries out no housekeeping.
 	epoch := s.chainTime.SlotToEpoch(duty.Slot())
-	if epoch > 1 {
-		s.attestedMu.Lock()
-		delete(s.attested, epoch-2)
-		s.attestedMu.Unlock()
+	s.attestedMu.Lock()
+	for attestedEpoch := range s.attested {
+		if attestedEpoch+2 <= epoch {
+			delete(s.attested, attestedEpoch)
+		}
 	}
+	s.attestedMu.Unlock()
 }
